@@ -3,6 +3,7 @@ package main
 import (
 	"bytes"
 	"fmt"
+	"os"
 
 	"github.com/openacid/slim/trie"
 )
@@ -241,6 +242,20 @@ func genC11(r *Rng, tier string) *C11Scn {
 					}
 				}
 				mix.Small = f.OK && f.ShortSize == 0 && maxLen <= 64
+			}
+		}
+	}
+	if hammer {
+		// hundreds of units per task are meant to be CHEAP units: with keys of
+		// kilobytes every scan outcome (and whatever a changed library buffers
+		// per scan - a producer goroutine with a prefetch channel per call, all
+		// of it kept alive by the channel table until the run ends) costs
+		// hundreds of kilobytes, thousands of times
+		for _, k := range keys {
+			if len(k) > 256 {
+				hammer = false
+				lim.maxTasks, lim.maxUnits = 6, 10
+				break
 			}
 		}
 	}
@@ -795,13 +810,15 @@ func executeC11Once(scn *Scenario) *RunResult {
 		}
 		refsB, _ := soloRefs(twinB, c.Tasks)
 		for k, r := range refs {
-			if soloCapped(refsB[k].out) != soloCapped(r.out) {
-				// one of the two reference executions ran into the absolute
-				// budget of a solo run and the other stayed just below it (the
-				// cost of a call is not part of its answer, and with goroutines
-				// inside the library it depends on the ambient schedule): the
-				// unit has no reference, it is excluded
-				r.out = r.out + "ABORT:solo-cap"
+			if soloCapped(refsB[k].out) || soloCapped(r.out) {
+				// a reference execution ran into the absolute budget of a solo
+				// run (where exactly it was cut, and whether the other twin stayed
+				// just below the budget, depends on the ambient schedule when
+				// the library uses goroutines: the cost of a call is not part of
+				// its answer): the unit has no reference, it is excluded
+				if !soloCapped(r.out) {
+					r.out = r.out + "ABORT:solo-cap"
+				}
 				if !soloCapped(r.out) {
 					panic("soloCapped does not recognise its own marker")
 				}
@@ -809,6 +826,9 @@ func executeC11Once(scn *Scenario) *RunResult {
 				continue
 			}
 			if refsB[k].out != r.out {
+				if os.Getenv("SLIMSIM_DEBUG_PREMISE") != "" {
+					fmt.Fprintf(os.Stderr, "PREMISE A: %s\nPREMISE B: %s\n", r.out, refsB[k].out)
+				}
 				res.Premise = fmt.Sprintf("twins disagree on %s: %q vs %q", k, clip(r.out, 80), clip(refsB[k].out, 80))
 				return false
 			}
